@@ -55,9 +55,10 @@ def build_program_case(rng, n_blocks=None, allow=None, main_modes=('usr', 'sys',
     rets = {k: rng.choice((P.RETURNS_THUMB if te else P.RETURNS_ARM)[k]) for k in ('irq', 'fiq', 'svc', 'und', 'dabt')}
     rets['mon_irq'] = rng.choice((P.RETURNS_THUMB if te else P.RETURNS_ARM)['irq'])
     rets['mon_fiq'] = rng.choice((P.RETURNS_THUMB if te else P.RETURNS_ARM)['fiq'])
+    rets['mon_smc'] = rng.choice((P.RETURNS_THUMB if te else P.RETURNS_ARM)['svc'])
     low, hinfo = P.build_low(te, rets)
-    allow = allow or ('alu', 'mem', 'stack', 'loop', 'cond', 'svc', 'udf', 'it', 'multi')
-    mg = P.MainGen(rng, thumb, mode != 'usr', allow=allow)
+    allow = allow or ('alu', 'mem', 'stack', 'loop', 'cond', 'svc', 'udf', 'it', 'multi', 'smc')
+    mg = P.MainGen(rng, thumb, mode != 'usr', allow=allow, sec=cfg['have_security_ext'])
     words = mg.generate(n_blocks or rng.choice([6, 12, 20]))
     code = emit(words, thumb)
     devices = G.std_devices(rec_data=rec_data, high=False)
@@ -145,8 +146,8 @@ class ReturnChecker:
         self.completed = set()
 
     def on_entry(self, kind, exp, s):
-        resume = {'irq': s['pc'], 'fiq': s['pc'], 'svc': exp['lr'], 'und': exp['lr'], 'dabt': s['pc']}.get(kind)
-        if kind in ('svc', 'und') and resume is not None:
+        resume = {'irq': s['pc'], 'fiq': s['pc'], 'svc': exp['lr'], 'und': exp['lr'], 'smc': exp['lr'], 'dabt': s['pc']}.get(kind)
+        if kind in ('svc', 'und', 'smc') and resume is not None:
             resume &= ~1
         if kind == 'und' and self.meta['returns'].get('und') == 'patch_retry':
             resume = (resume - 2) & 0xFFFFFFFF          # the patched 16-bit instruction is retried
@@ -635,6 +636,12 @@ def gen_coproc(rng):
          'mcrr': A.mcrr(cp, f(4), rt, (rt + 1) % 13, f(4), 0), 'mrrc': A.mcrr(cp, f(4), rt, (rt + 1) % 13, f(4), 1)}[insn]
     if thumb:
         w = (w & 0x0FFFFFFF) | 0xE0000000       # same encoding with the 0b1110 prefix in Thumb
+    if rng.random() < 0.12:
+        # CP14 ThumbEE configuration register: MCR/MRC p14, 6, Rt, c0, c0, 0 (TEECR) is privileged-only
+        insn = rng.choice(['mcr', 'mrc'])
+        cp = 14
+        w = (A.mcr if insn == 'mcr' else A.mrc)(14, 6, rt, 0, 0, 0)
+        insn = 'teecr_' + insn
     core = {'config': cfg, 'devices': G.std_devices(high=False), 'regs': regs, 'words': [w], 'force': None, 'no_poke': []}
     return {'scenario': 'coproc', 'cores': [core], 'insn': insn, 'cp': cp, 'thumb': thumb, 'events': [], 'max_ticks': 2, 'stop_at_done': False}
 
@@ -667,7 +674,11 @@ def run_coproc(case):
     r = arm.registers
     mode = r.cpsr.value & 0x1F
     pre = M.full_state(arm, hidden=False)
-    want = coproc_model(case['cp'], mode, cfgd['have_security_ext'], cfgd['have_virt_ext'], r.scr.value, r.cpacr.value, r.nsacr.value, r.hcptr.value)
+    if case['cp'] == 14:
+        # TEECR: UNDEFINED from User mode, accepted (handed to the coprocessor hook) from privileged modes; HSTR.TTEE is kept 0
+        want = 'und' if mode == 0x10 else 'accepted'
+    else:
+        want = coproc_model(case['cp'], mode, cfgd['have_security_ext'], cfgd['have_virt_ext'], r.scr.value, r.cpacr.value, r.nsacr.value, r.hcptr.value)
     b.advance()
     if b.cores[0].dead or b.violations:
         return b
